@@ -72,15 +72,37 @@ def gen_case(rng, tier, avoid):
             w['data'] = {'kind': 'dict', 'arrays': [['IDX', rc2]]}
         if rng.random() < 0.3:
             w['input_chunk_size'] = rng.choice([1, 2, 3, rows])
+        if rng.random() < 0.15:
+            # an attempt that fails first (other rows, I/O error or interrupt at a seeded point): what it derived before failing
+            # must not show in the next file
+            fa = gen.failed_attempt(rng, w, path='failed%d.dlis' % k)
+            if rows > 1 and rng.random() < 0.6:
+                a2 = rng.randint(0, rows - 1)
+                fa.pop('from_idx', None)
+                fa.pop('to_idx', None)
+                if a2:
+                    fa['from_idx'] = a2
+                fa['to_idx'] = rng.randint(a2 + 1, rows)
+                if 'single_row_index' in avoid and fa['to_idx'] - a2 == 1:
+                    fa.pop('from_idx', None)
+                    fa['to_idx'] = rows
+            writes.append(fa)
         writes.append(w)
         if indexed and k + 1 < nw and not user and rng.random() < 0.25:
             # the user then assigns, explicitly, the very value this write derived from its rows: it is the user's from now on
             from .. import values as _v
             arr = _v.make_array((w.get('data') or {}).get('arrays', [[None, rc]])[0][1] if w.get('data') else rc)
             sel = arr[w.get('from_idx', 0) or 0: w.get('to_idx')]
-            if sel.shape[0] > 0 and sel.dtype.kind == 'f' and not (sel != sel).any():
-                which = rng.choice(['index_min', 'index_max'])
-                val = float(sel.min() if which == 'index_min' else sel.max())
+            if sel.shape[0] > 0 and sel.ndim == 1 and not (sel != sel).any():
+                num = (lambda x: float(x)) if sel.dtype.kind == 'f' else (lambda x: int(x))
+                which = rng.choice(['index_min', 'index_max', 'index_min', 'index_max', 'spacing', 'direction'])
+                if which == 'direction':
+                    val = rng.choice(['INCREASING', 'DECREASING'])      # (equal to the derived one in half of the cases)
+                elif which == 'spacing':
+                    val = num(sel[1].astype('f8' if sel.dtype.kind == 'f' else 'i8') - sel[0].astype('f8' if sel.dtype.kind == 'f' else 'i8')) \
+                        if sel.shape[0] > 1 else 1
+                else:
+                    val = num(sel.min() if which == 'index_min' else sel.max())
                 writes.append({'set': {'attr': which, 'part': 'value', 'v': val}})
     return {'scenario': {'env': {'tz': 'UTC'}, 'history': spec.ops}, 'params': {'writes': writes, 'mode': mode,
                                                                                    'indexed': indexed}}
@@ -110,6 +132,14 @@ def check_case(case, ex):
         k += 1
         st = res['steps'][n0 + j]
         m = M.build(sc['history'], res['steps'], upto=n0 + j)       # the specification as it was when this write was made
+        if st is not None and wop.get('failed_attempt') and st.get('faults_fired'):
+            for fk in st['faults_fired']:
+                C.bump(stats['faults'], fk)
+            if st.get('out') != 'ok':
+                C.bump(stats['probes'], 'failed_attempt_before_write')
+                stats['nontrivial'] = True
+                k -= 1
+                continue
         if st is None or st.get('out') != 'ok' or st.get('file') is None:
             C.bump(stats['probes'], 'write_%d_failed' % (k + 1))
             continue
